@@ -156,7 +156,14 @@ let catchup_seen = ref false
 let fails : string list ref = ref []
 let n_checks = ref 0
 
+(* largest reply produced since the current marked handshake / fair round / case began (for the
+   class of known finding KF-2: an offer that is actually cut by the datagram limit) *)
+let max_reply_hs = ref 0
+let max_reply_round = ref 0
+let max_reply_case = ref 0
+
 let reset_case () =
+  max_reply_hs := 0; max_reply_round := 0; max_reply_case := 0;
   Hashtbl.reset infos; Hashtbl.reset snaps; Hashtbl.reset ledgers; Hashtbl.reset owner_hb;
   Hashtbl.reset fresh;
   next_catchup_honest := false; next_catchup_source := None; Hashtbl.reset dead_since; Hashtbl.reset fresh_times; Hashtbl.reset caught_up; Hashtbl.reset usable; Hashtbl.reset seen_max; Hashtbl.reset last_rb; Hashtbl.reset usable_strict; now := BZ.zero; Hashtbl.reset tainted; Hashtbl.reset tainted_nds; Hashtbl.reset removed_by_eval;
@@ -199,6 +206,22 @@ let is_owner_known (i : id) : bool = Hashtbl.mem ledgers (token_of_id i)
 (* invariants that hold after every step on node [n] *)
 let common_checks ?(idx = -1) (info : nodeinfo) (before : snap option) (after : snap) ~(is_local : bool) : unit =
   check "C12" (c12_sets_ok info.self after.live after.dead) "live/dead sets overlap or self not live";
+  (* C12: quarantine exactly after half the grace period — a member found dead at instant t (the
+     evaluation that put it in the dead set) is in the node's scheduled-for-deletion set, the one its
+     digests and deltas leave out, iff now > t + grace/2; observed at every dump *)
+  if idx >= 0 then
+    List.iter
+      (fun i ->
+        match Hashtbl.find_opt dead_since (idx, token_of_id i) with
+        | Some t ->
+            let half = z_of_cz info.fdc.half_grace in
+            let due = BZ.compare (BZ.add t half) !now < 0 in
+            check "C12" (in_ids i after.sched = due)
+              ("member " ^ token_of_id i
+               ^ (if due then " has been dead for more than half the grace period but is not quarantined (still mentioned in digests and deltas)"
+                  else " is quarantined before it has been dead for half the grace period"))
+        | None -> ())
+      after.dead;
   (match before with
    | Some b ->
        if not !catchup_seen then
@@ -374,6 +397,9 @@ let on_proc (idx : int) (msg : message) (obs : string) : unit =
       (* C07: size and shape of the reply *)
       (match o.reply with
        | Some r ->
+           max_reply_hs := max !max_reply_hs o.reply_bytes;
+           max_reply_round := max !max_reply_round o.reply_bytes;
+           max_reply_case := max !max_reply_case o.reply_bytes;
            check "C07" (o.reply_bytes <= int_of_n p_MAX_UDP)
              (Printf.sprintf "reply of %d bytes exceeds the datagram limit" o.reply_bytes);
            (match r with
@@ -794,17 +820,26 @@ let round_converged_before = ref true
 let hs_base : (int * string, n * n) Hashtbl.t ref = ref (Hashtbl.create 1)
 let hs_deliverable = ref false
 
-let kf2_class () = if any_quarantine () then Some "KF-2" else None
+(* known finding KF-2 (wasted offer): a member is quarantined or removed at the receiver but not at
+   the sender; the sender spends its datagram on that member, the receiver discards it, and other
+   news waits.  The finding is about an offer the datagram limit actually CUTS: a failure is put in
+   that class only when some node quarantines or remembers a member AND a reply of the failing
+   handshake / round / case came within 8 kB of the limit.  Without such a reply every stale member
+   fits in the reply, the discarded one costs nothing, and a handshake that advances nobody is a
+   different defect. *)
+let near_limit (bytes : int) : bool = bytes >= int_of_n p_MAX_UDP - 8192
+let kf2_class (largest : int) = if any_quarantine () && near_limit largest then Some "KF-2" else None
 
 let on_round (r : int) : unit =
   if r > 0 && not !round_converged_before then
-    check "C01" ?cls:(kf2_class ()) (progressed !round_base (frontier_table ()) ~only:None)
+    check "C01" ?cls:(kf2_class !max_reply_round) (progressed !round_base (frontier_table ()) ~only:None)
       (Printf.sprintf "fair round %d of complete handshakes advanced no copy although the world had not converged" r);
+  max_reply_round := 0;
   round_base := frontier_table ();
   round_converged_before := converged ()
 
 let on_rounds_end (rounds : int) : unit =
-  check "C01" ?cls:(kf2_class ()) (converged ())
+  check "C01" ?cls:(kf2_class !max_reply_case) (converged ())
     (Printf.sprintf "not converged after %d fair rounds of loss-free complete handshakes" rounds)
 
 (* deliverable from [s] (sender) to [r] (receiver): a member s does not quarantine, ahead of r's
@@ -818,6 +853,7 @@ let deliverable (s : snap) (r : snap) : bool =
     s.nodes
 
 let on_hs_begin (a : int) (b : int) : unit =
+  max_reply_hs := 0;
   hs_base := frontier_table ();
   hs_deliverable :=
     (match Hashtbl.find_opt snaps a, Hashtbl.find_opt snaps b with
@@ -826,7 +862,7 @@ let on_hs_begin (a : int) (b : int) : unit =
 
 let on_hs_end (a : int) (b : int) : unit =
   if !hs_deliverable then
-    check "C01" ?cls:(kf2_class ()) (progressed !hs_base (frontier_table ()) ~only:(Some [a; b]))
+    check "C01" ?cls:(kf2_class !max_reply_hs) (progressed !hs_base (frontier_table ()) ~only:(Some [a; b]))
       (Printf.sprintf "complete handshake %d<->%d with deliverable data advanced no copy at either node" a b)
 
 
